@@ -18,7 +18,7 @@ def prop(pid, quick, thorough=(), level="other", explanation="", assumptions=(),
 
 prop(
     "C01",
-    [hdr.rule_bounds_appended, idx.rule_idx_space, shape.rule_discriminants, hdr.rule_tpl_hdr, hdr.rule_tpl_lint, hdr.rule_tpl_selfassoc, rawid.rule_raw_id, shape.rule_tpl_prec, fmtdec.rule_traversal, fmtdec.rule_guard_use, fmtdec.rule_shared_decision, gendet.rule_generics_search, gendet.rule_type_param_used, reject.rule_reject_ledger, idx.rule_enumerate_positions, errsel.rule_error_selection, fmtdec.rule_expansion_pair, hdr.rule_generics_preserve],
+    [fmtparse.rule_fmt_counter, conv.rule_from_table, hdr.rule_bounds_appended, idx.rule_idx_space, shape.rule_discriminants, hdr.rule_tpl_hdr, hdr.rule_tpl_lint, hdr.rule_tpl_selfassoc, rawid.rule_raw_id, shape.rule_tpl_prec, fmtdec.rule_traversal, fmtdec.rule_guard_use, fmtdec.rule_shared_decision, gendet.rule_generics_search, gendet.rule_type_param_used, reject.rule_reject_ledger, idx.rule_enumerate_positions, errsel.rule_error_selection, fmtdec.rule_expansion_pair, hdr.rule_generics_preserve],
     explanation="Structural necessary conditions of 'every supported input expands to code that compiles warning-free': the 27 generated impl headers and every TypeGenerics splice "
     "(interpolations typed by rustc through the MIR binding join, identifier provenance by def-use), lint attributes on impls that name user variants, no Self::<Assoc> in enum-capable expanders, raw identifiers, "
     "spliced user expressions.",
@@ -30,7 +30,7 @@ prop(
 
 prop(
     "C02",
-    [fmtdec.rule_literal_verbatim, tables.rule_fmt_trait_tables, fmtdec.rule_tpl_verb, fmtdec.rule_binder_align, fmtdec.rule_pointer_deref, fmtdec.rule_rename_all, state.rule_iteration_state, optrules.rule_option_flow, rawid.rule_raw_id, fmtparse.rule_peg_tables, fmtparse.rule_peg_equiv, fmtdec.rule_attr_separator],
+    [state.rule_shared_cursor, fmtdec.rule_literal_verbatim, tables.rule_fmt_trait_tables, fmtdec.rule_tpl_verb, fmtdec.rule_binder_align, fmtdec.rule_pointer_deref, fmtdec.rule_rename_all, state.rule_iteration_state, optrules.rule_option_flow, rawid.rule_raw_id, fmtparse.rule_peg_tables, fmtparse.rule_peg_equiv, fmtdec.rule_attr_separator],
     explanation="With an attribute the expansion *is* a write!/format_args! call, so 'prints what format! prints' reduces to: the attribute's tokens reach the macro verbatim and in order, fields are bound under "
     "the names the literal may use (`ident` / `_i`, same field), Pointer placeholders get the field itself, and the implicit body (unit name with rename_all, single-field delegation) is built as documented.",
     assumptions=["Rust's own semantics of format_args! (trusted)", NOT_DECIDED_VALUES],
@@ -53,7 +53,7 @@ prop(
 
 prop(
     "C04",
-    [hdr.rule_bounds_appended, attrs.rule_typed_attrs, tables.rule_fmt_trait_tables, fmtdec.rule_guard_use, fmtdec.rule_traversal, fmtdec.rule_lookup_agreement, fmtdec.rule_shared_decision, fmtparse.rule_fmt_counter, fmtparse.rule_peg_tables, fmtdec.rule_expansion_pair],
+    [split.rule_alias_test, split.rule_ident_argument, hdr.rule_bounds_appended, attrs.rule_typed_attrs, tables.rule_fmt_trait_tables, fmtdec.rule_guard_use, fmtdec.rule_traversal, fmtdec.rule_lookup_agreement, fmtdec.rule_shared_decision, fmtparse.rule_fmt_counter, fmtparse.rule_peg_tables, fmtdec.rule_expansion_pair],
     explanation="Bounds are emitted by six templates `#ty: core::fmt::#Trait`; each must be guarded by contains_generics on the same binding; contains_generics must traverse every variant / type-bearing field of "
     "syn::Type, PathArguments and GenericArgument (read from the syn sources the crate builds against); the placeholder->field lookup agrees with its sibling and with the binder names; body and bounds take the same decisions.",
     assumptions=["NOT decided: that bounded_types is a complete algorithm for arbitrary literals beyond these necessary conditions", NOT_DECIDED_VALUES],
@@ -61,7 +61,7 @@ prop(
 
 prop(
     "C05",
-    [fmtdec.rule_shared_attr_unfiltered, fmtdec.rule_dec_cover, fmtdec.rule_transparent_call, fmtdec.rule_transparent_siblings, split.rule_split_table, fmtparse.rule_peg_combinators, fmtparse.rule_single_placeholder, split.rule_alias_test],
+    [fmtdec.rule_shared_decision, fmtdec.rule_shared_attr_unfiltered, fmtdec.rule_dec_cover, fmtdec.rule_transparent_call, fmtdec.rule_transparent_siblings, split.rule_split_table, fmtparse.rule_peg_combinators, fmtparse.rule_single_placeholder, split.rule_alias_test],
     explanation="FmtAttribute::transparent_call is the decision function for flag pass-through: every FormatSpec field must veto transparency, exactly one placeholder, the positional index must denote the single argument, "
     "and each site emitting an attribute body must ask it first and fall back to write! unconditionally. Argument counting depends on the argument scanner (C16 findings are repeated here).",
     assumptions=["format_args!/write! ignore the outer formatter's flags (Rust semantics)", NOT_DECIDED_VALUES],
@@ -93,7 +93,7 @@ prop(
 
 prop(
     "C09",
-    [gendet.rule_type_param_used, idx.rule_idx_space, errsel.rule_view_defs, errsel.rule_error_selection, generic.rule_arg_order, generic.rule_field_correspondence, optrules.rule_meta_defaults, state.rule_loop_exit],
+    [optrules.rule_enabled_default, gendet.rule_type_param_used, idx.rule_idx_space, errsel.rule_view_defs, errsel.rule_error_selection, generic.rule_arg_order, generic.rule_field_correspondence, optrules.rule_meta_defaults, state.rule_loop_exit],
     explanation="Index-space typing: collections over all fields vs. enabled fields are derived from utils::State; the positions stored in ParsedFields come from an enumerate over enabled fields; every subscript and every "
     "`matcher` argument must use an index of the collection's own space. Plus the documented selection table of parse_field_impl / defaults / ignored variants.",
     assumptions=[NOT_DECIDED_VALUES],
@@ -109,7 +109,7 @@ prop(
 
 prop(
     "C11",
-    [shape.rule_ref_types, hdr.rule_generics_preserve, facade.rule_error_display, shape.rule_accessors, errsel.rule_view_defs, idx.rule_idx_space, rawid.rule_raw_id, generic.rule_arg_order, generic.rule_field_correspondence, generic.rule_order_adaptors, optrules.rule_meta_defaults, state.rule_raw_flags],
+    [optrules.rule_enabled_default, shape.rule_ref_types, hdr.rule_generics_preserve, facade.rule_error_display, shape.rule_accessors, errsel.rule_view_defs, idx.rule_idx_space, rawid.rule_raw_id, generic.rule_arg_order, generic.rule_field_correspondence, generic.rule_order_adaptors, optrules.rule_meta_defaults, state.rule_raw_flags],
     explanation="Accessor methods, patterns, binders and error values are built per variant from one source; the failure re-match covers all variants; TryInto patterns go through matcher(field_indexes, binders) (IDX-SPACE, VIEW-DEF); "
     "method names are built from un-raw variant names.",
     assumptions=["snake_case conversion is delegated to convert_case (not analysed)", NOT_DECIDED_VALUES],
@@ -132,7 +132,7 @@ prop(
 
 prop(
     "C14",
-    [shape.rule_ref_types, hdr.rule_generics_preserve, hyg.rule_tpl_ufcs, shape.rule_delegation, errsel.rule_view_defs, idx.rule_idx_space, idx.rule_enumerate_positions, gendet.rule_generics_search, generic.rule_arg_order, generic.rule_field_correspondence, optrules.rule_meta_defaults, state.rule_raw_flags, reject.rule_reject_ledger],
+    [optrules.rule_enabled_default, shape.rule_ref_types, hdr.rule_generics_preserve, hyg.rule_tpl_ufcs, shape.rule_delegation, errsel.rule_view_defs, idx.rule_idx_space, idx.rule_enumerate_positions, gendet.rule_generics_search, generic.rule_arg_order, generic.rule_field_correspondence, optrules.rule_meta_defaults, state.rule_raw_flags, reject.rule_reject_ledger],
     explanation="Delegating derives use element 0 of the enabled views (VIEW-DEF keeps positional names original), direct forms `&[mut] self.member`, forwarded forms through one cast with projected associated types, "
     "RefType tables pairwise consistent, AsRef kind decision and the autoref-specialisation levels of src/as.rs vs. the call site.",
     assumptions=["autoref-based specialisation: method probing prefers the receiver with fewer auto-refs (language semantics)", NOT_DECIDED_VALUES],
@@ -167,7 +167,7 @@ prop(
 
 prop(
     "C18",
-    [panics.rule_panic_ledger, panics.rule_extern_preconditions, panics.rule_closed_sets, panics.rule_termination, fmtparse.rule_peg_combinators, fmtparse.rule_peg_tables, fmtdec.rule_traversal, split.rule_scanner_progress, idx.rule_idx_space, rawid.rule_raw_id],
+    [state.rule_shared_cursor, panics.rule_panic_ledger, panics.rule_extern_preconditions, panics.rule_closed_sets, panics.rule_termination, fmtparse.rule_peg_combinators, fmtparse.rule_peg_tables, fmtdec.rule_traversal, split.rule_scanner_progress, idx.rule_idx_space, rawid.rule_raw_id],
     explanation="Every panic-capable site rustc sees in the crate (all features) is matched against a ledger: diagnostic, input-guaranteed, guarded (the guard is re-recognised from the conditions holding at the site on this run) or audited with a reason; "
     "closed sets behind unimplemented!/unreachable! are re-derived from the create_derive! table and the syn sources; recursive SCCs of the resolved call graph need a termination argument; parser loops progress.",
     assumptions=["panics inside syn / quote / proc-macro2 for token streams the compiler never produces are out of scope", "stack depth as a number is not bounded, only recursion on strict sub-terms"],
